@@ -2,6 +2,7 @@
 # run every claimed check on /repo's (clean) working tree and refresh /verif/evidence
 [ -z "$(git -C /repo status --porcelain)" ] || { echo "/repo is not clean"; exit 2; }
 cd /verif; rc=0
+python3 tools_names.py || { echo "undefined names in rule modules"; exit 2; }
 for id in $(python3 -c "import json;print(' '.join(c['property_id'] for c in json.load(open('MANIFEST.json'))['checks']))"); do
   ./check $id --tier ${1:-quick} | grep -E "VIOLATION|quick:|thorough:|INFRA" ; [ ${PIPESTATUS[0]} -eq 0 ] || rc=1
 done
